@@ -352,7 +352,7 @@ def _batch(rng, d, m=None):
 
 def menu_names():
     return ["PR_tree_lin", "PR_bins_lin", "PR_tree_dummy", "PC_tree_logreg", "PC_bins_tree", "DTLR", "DTLR_deep",
-            "PTR_mselin", "PTR_simple", "KM_L1", "KM_L2", "CKM_plain", "CKM_weights", "CAK", "TT_logreg",
+            "PTR_mselin", "PTR_simple", "KM_L1", "KM_L2", "CKM_plain", "CKM_weights", "CAK", "CAK_labels", "TT_logreg",
             "TT_scaler", "TT_kmeans", "TT_pca"]
 
 
@@ -418,6 +418,18 @@ def build(ctx, name, rng):
                                     strategy="weights").fit(X[:30]), ["predict", "transform"], d
         if name == "CAK":
             return ClassifierAfterKMeans(c_n_init=1, c_random_state=seed, e_max_iter=40).fit(X, yc), \
+                P3 + ["transform_features"], d
+        if name == "CAK_labels":
+            # label values whose set-iteration order is not their sorted order (dict-valued fitted attributes are
+            # then filled in non-sorted key order): {-1, 1} iterates 1, -1 and {3, 9, 12} iterates 9, 3, 12
+            import numpy
+            three = rng.random() < 0.5
+            if three:
+                y3 = numpy.where(X[:, 0] > 5, 12, numpy.where(X[:, 1] > 4, 9, 3))
+                y3[:3] = [3, 9, 12]
+            else:
+                y3 = numpy.where(yc > 0, 1, -1)
+            return ClassifierAfterKMeans(c_n_init=1, c_random_state=seed, e_max_iter=60).fit(X, y3), \
                 P3 + ["transform_features"], d
         if name == "TT_logreg":
             return TransferTransformer(LogisticRegression(max_iter=40).fit(X, yc)).fit(), ["transform"], d
@@ -582,6 +594,23 @@ def check_estimator(ctx, name, gen_seed, n_batches=2):
                 bad.append(("%s:%s-raises" % (cls, how), "%s of the fitted model raises" % how,
                             "%s: %s" % (type(e).__name__, str(e)[:150]), "a model with identical outputs"))
         unseen = 0
+        if "transform_bins" in meths:
+            # rows falling in buckets unseen at training time: alone, in pairs, and mixed with seen rows
+            G = _batch(rng, d, 40)
+            ids = numpy.asarray(model.transform_bins(G))
+            ub = [i for i in range(G.shape[0]) if ids[i] < 0]
+            sb = [i for i in range(G.shape[0]) if ids[i] >= 0]
+            for meth in [m for m in meths if m != "transform_bins"]:
+                f = getattr(model, meth)
+                fullG = numpy.asarray(f(G))
+                for i in ub[:4]:
+                    for rows_ in ([i], [i] + sb[:3], sb[:2] + [i] + sb[2:4]):
+                        out = numpy.asarray(f(G[rows_]))
+                        if not same(fullG[rows_], out, False):
+                            bad.append(("%s.%s:unseen-bucket-row" % (cls, meth),
+                                        "a row of a bucket unseen at training time gets another output when it is the only "
+                                        "such row of the batch", out.tolist()[:4], fullG[rows_].tolist()[:4]))
+                            break
         for b in range(n_batches):
             B = _batch(rng, d)
             for meth in meths:
